@@ -20,7 +20,7 @@ from . import hashmany as hmany
 TRUSTED = ["inner Client contract (raising exit => socket closed)", "pool contracts (C09)"]
 ASSUMPTIONS = ["inner clients are built with ignore_exc=False (proved in C16: _create_client)"]
 NOT_COVERED = [               "input errors (MemcacheIllegalInputError before any I/O) are not server or network failures"]
-BUDGET = {"quick": 30, "thorough": 120}
+BUDGET = {"quick": 40, "thorough": 120}
 FILTER_BY_PROPERTY = True
 REPLAY_UNDECIDED = True
 DEPENDS = ["C13", "C01"]      # _safely_run_func's contract: nothing escapes with ignore_exc
